@@ -113,6 +113,15 @@ def run(tier, seed, replay=None):
     ld = pyload.module("list_drf")
     slice_contract(ck, ld, 4 if tier == "thorough" else 3)
     grammar(ck, ld)
+    from checks import list_common
+    list_common.decorate_contract(ck, ld)
+    if tier == "thorough":
+        list_common.yield_contract(ck, ld, 3, 1)
+        list_common.yield_contract(ck, ld, 2, 2, skip=lambda c: max(c, default=0) < 2)
+    else:
+        list_common.yield_contract(ck, ld, 2, 1)
+    ck.replayers["yield."] = replay_listing
+    ck.replayers["decorate."] = replay_listing
     for nm in ("_yield_matching_files", "ilsdrf", "_decorate_drf_files"):
         ck.add_function(pyload.source_info(ld, nm))
     ck.replayers["slice."] = replay_listing
@@ -123,7 +132,8 @@ def run(tier, seed, replay=None):
     ck.bounded_runs.append(("bounded.lsdrf_vs_spec", "%d generated trees x 6 queries (nested RF/metadata/legacy channels, empty subdirs, stray and tmp files, all flags, windows on file/subdir edges)" % ntrees,
                             r["cases"], r["failures"]))
     ck.trust({"bisect.bisect_left": "standard contract (executed, CPython)", "os.walk/os.listdir/re": "executed, not deduced (bounded differential only)"})
-    ck.assumptions += ["_yield_matching_files / ilsdrf are covered only by the bounded differential against the set-theoretic listing specification (labelled bounded, not proved)"]
+    ck.assumptions += ["ilsdrf (os.walk order, property-file flags, recursion) is covered only by the bounded differential against the set-theoretic listing specification (labelled bounded, not proved)"]
     ck.extra["explanation"] = ("window slice: path-complete symbolic execution of the real _decorated_list_slice for all list lengths <= bound with symbolic times; "
+                               "channel listing: path-complete symbolic execution of the real _yield_matching_files generator over bounded directory shapes with symbolic times against the window/order/look-back contract; "
                                "grammar: exhaustive regex evaluation over a bounded name grammar; directory walk: bounded differential against the specification")
     return ck
